@@ -174,6 +174,15 @@ def e2e(params):
                 bad += [f"{it}: {b}" for b in compare_grouped(pred.copy(), ref.copy(), it, dd, dec)]
             except Exception as e:
                 bad.append(f"{it}: raised {type(e).__name__}: {e}"[:200])
+    # a single-instance group whose label is present on ONE side only (prediction and reference must not be exchanged: fp vs fn)
+    p1 = np.array([0, 1, 1, 2, 2, 0, 9, 9, 9, 0], np.uint8)
+    r1 = np.array([0, 1, 1, 1, 2, 0, 0, 0, 0, 0], np.uint8)
+    for it in ("SEMANTIC", "UNMATCHED_INSTANCE", "MATCHED_INSTANCE"):
+        for pp_, rr_ in ((p1, r1), (r1, p1)):
+            try:
+                bad += [f"{it} (single-instance label on one side): {b}" for b in compare_grouped(pp_.copy(), rr_.copy(), it, {"Plain": ([1, 2], "plain"), "one": ([9], "single")}, None)]
+            except Exception as e:
+                bad.append(f"{it}: raised {type(e).__name__}: {e}"[:200])
     u = undefined({})
     bad += u["problems"]
     return {"violated": bool(bad), "problems": bad[:6]}
